@@ -133,7 +133,7 @@ def run(tier, replay=None):
         h.append("close")
         hs.append(h)
         # bank map churn: create / remove / look up banks whose ids share hash buckets, enumerate after every step (the settings line walks all banks)
-        for i in range(3 if tier == "quick" else 150):
+        for i in range(8 if tier == "quick" else 150):
             h = ["new 44100"]
             for _ in range(120):
                 key = (rng.choice([0, 1]), rng.choice([0, 1, 2, 3, 64]), rng.choice([0, 1, 2, 3]))
@@ -143,7 +143,7 @@ def run(tier, replay=None):
                     h.append("on 0 60 100"); h.append("off 0 60")
             h.append("close")
             hs.append(h)
-        for i in range(10 if tier == "quick" else 900):
+        for i in range(40 if tier == "quick" else 900):
             h = gen_history(rng, 60, files)
             if i % 3:
                 h.insert(1, "bankdata " + bank.hex())
